@@ -120,6 +120,15 @@ INVALID_VALID_FAMILY = [
     "query { ...FC } fragment FC on Query { ...FB } fragment FB on Query { ...FA } fragment FA on Query { a: __typename }",
     "query { ...FA } fragment FA on Query { ...FA }",
     "query { ...FA ...FA } fragment FA on Query { __typename }",
+    # one operation text, different fragment definitions behind it: what a rule concludes about the operation depends
+    # on the fragments of ITS document (variables used / defined through spreads, unknown fields, cycles)
+    "query Q($v: Int) { ...F }\nfragment F on Query { echoInt(v: $v) }",
+    "query Q($v: Int) { ...F }\nfragment F on Query { ping }",
+    "query Q { ...F }\nfragment F on Query { ping }",
+    "query Q { ...F }\nfragment F on Query { echoInt(v: $v) }",
+    "query Q { ...F }\nfragment F on Query { nope }",
+    "query Q($v: Int) { ...F }\nfragment F on Query { ...G }\nfragment G on Query { echoInt(v: $v) }",
+    "query Q($v: Int) { ...F }\nfragment F on Query { ...G }\nfragment G on Query { echoStr(v: $v) }",
     # unused / unknown / duplicated names
     "query { __typename } fragment FA on Query { __typename }",
     "query { ...FZ }",
